@@ -22,33 +22,43 @@ Writable(scope) == CASE scope \in {"recv", "hash"} -> {"req"}
 
 \* var.n is declared and never assigned by the fixed part of the program (a not-set STRING operand);
 \* g0 / g1 take no parameter and declare their locals - the same names, var.f with another type - inside a block
-Visible(sub) == CASE sub = "main" -> {"var.i", "var.j", "var.f", "var.r", "var.s", "var.t", "var.b", "var.tm", "var.n"}
+\* p1 / p2 take one parameter of every VCL parameter type; main calls p1 and p2, p1 calls p2 (nesting depth 2)
+PParams == {"var.p", "var.x", "var.k", "var.o", "var.g", "var.h", "var.d", "var.q", "var.a", "var.l"}
+Visible(sub) == CASE sub = "main" -> {"var.i", "var.j", "var.f", "var.r", "var.s", "var.t", "var.b", "var.tm", "var.n",
+                                     "var.be", "var.re", "var.ip"}
+                  [] sub \in {"p1", "p2"} -> PParams
                   [] sub = "g0" -> {"var.i", "var.s", "var.f", "var.n"}
                   [] sub = "g1" -> {"var.i", "var.s"}
                   [] sub = "f1" -> {"var.p", "var.q", "var.i", "var.s"}
                   [] sub = "f2" -> {"var.p", "var.i", "var.s"}
-IsLocal(n) == n \in {"var.i", "var.j", "var.f", "var.r", "var.s", "var.t", "var.b", "var.tm", "var.n", "var.p", "var.q"}
+IsLocal(n) == n \in {"var.i", "var.j", "var.f", "var.r", "var.s", "var.t", "var.b", "var.tm", "var.n", "var.be", "var.re", "var.ip", "var.x", "var.k", "var.o", "var.g", "var.h", "var.d", "var.a", "var.l", "var.p", "var.q"}
 Ty(n) == CASE n \in {"var.i", "var.j", "var.q"} -> "INTEGER"
-           [] n = "var.f" -> "FLOAT"
-           [] n = "var.r" -> "RTIME"
-           [] n = "var.b" -> "BOOL"
-           [] n = "var.tm" -> "TIME"
+           [] n \in {"var.f", "var.g"} -> "FLOAT"
+           [] n \in {"var.r", "var.d"} -> "RTIME"
+           [] n \in {"var.b", "var.o"} -> "BOOL"
+           [] n \in {"var.tm", "var.h"} -> "TIME"
+           [] n \in {"var.be", "var.k", "req.backend"} -> "BACKEND"
+           [] n \in {"var.re", "var.x"} -> "REGEX"
+           [] n \in {"var.ip", "var.a"} -> "IP"
+           [] n = "var.l" -> "ACL"
            [] OTHER -> "STRING"      \* STRING locals and every header
 
 
 Objs == {"req", "bereq", "beresp", "obj", "resp"}
-LocalNames == {"var.i", "var.j", "var.f", "var.r", "var.s", "var.t", "var.b", "var.tm", "var.n", "var.p", "var.q"}
+LocalNames == {"var.i", "var.j", "var.f", "var.r", "var.s", "var.t", "var.b", "var.tm", "var.n", "var.be", "var.re", "var.ip", "var.x", "var.k", "var.o", "var.g", "var.h", "var.d", "var.a", "var.l", "var.p", "var.q"}
 ReGroups == {"re.group.0", "re.group.1", "re.group.2"}
 \* H1 (with another spelling and a sub-field) and H2 start with a value, H3 starts not set, H4 set and empty
 HdrRecs == {[n |-> o \o ".http." \o h, o |-> o, g |-> IF h \in {"H2", "H3", "H4"} THEN h ELSE "H1"] :
               o \in Objs, h \in {"H1", "h1", "H1:a", "H2", "H3", "H4"}}
 HdrNames == {r.n : r \in HdrRecs}
 Observers == {"req.url", "bereq.url", "beresp.status", "obj.status", "resp.status"}
-PoolNames == LocalNames \cup ReGroups \cup HdrNames \cup Observers
+\* req.backend and what the declared backend / director identifiers b1, b2, d1 evaluate to
+Backends == {"req.backend", "b1", "b2", "d1"}
+PoolNames == LocalNames \cup ReGroups \cup HdrNames \cup Observers \cup Backends
 Range(f) == {f[x] : x \in DOMAIN f}
 
 \* T and the values derived from T: a header, its other spellings and its sub-fields are one value
-Derived(t) == IF IsLocal(t) THEN {t}
+Derived(t) == IF IsLocal(t) \/ t = "req.backend" THEN {t}      \* assigning req.backend changes nothing but req.backend
               ELSE {r.n : r \in {x \in HdrRecs : \E q \in HdrRecs : q.n = t /\ q.o = x.o /\ q.g = x.g}}
 
 \* expression forms that legitimately write re.group.* (a match, a regsub)
